@@ -9,6 +9,7 @@ import (
 	"math/big"
 	"regexp"
 	"strings"
+	"time"
 )
 
 // ---------- bech32 (BIP-173) ----------
@@ -531,6 +532,17 @@ func init() {
 		s, n := a[0].(*Term), a[1].(*Term)
 		return TimeV{T: ex.tf.BVAdd(ex.tf.BVMul(s, ex.tf.BVu(1000000000, 64)), n)}
 	})
+	parse := func(ex *Exec, layout, value Val) Val {
+		l, v := ex.argStr(layout, "time layout"), ex.argStr(value, "time text")
+		t, err := time.ParseInLocation(l, v, time.UTC)
+		if err != nil {
+			return TupleV{TimeV{Z: true}, ex.newErr("time", "parsing time: "+err.Error())}
+		}
+		return TupleV{TimeV{T: ex.tf.BVi(t.UnixNano(), 64)}, IfaceV{}}
+	}
+	// the location argument is time.UTC in the code under test
+	reg("time.ParseInLocation", func(ex *Exec, a []Val) Val { return parse(ex, a[0], a[1]) })
+	reg("time.Parse", func(ex *Exec, a []Val) Val { return parse(ex, a[0], a[1]) })
 	reg("time.Now", func(ex *Exec, a []Val) Val {
 		ex.res.Covers["wall-clock read time.Now at "+ex.curPos()] = true
 		return TimeV{T: ex.freshVar("now", BVSort(64))}
